@@ -301,5 +301,174 @@ theorem inv_fuel {own : List α} {ls : List (Link α F)} (n : Nat) :
     · rename_i l c hf
       exact ih _ (inv_step hI hf)
 
+/-! ### termination: a potential that strictly decreases -/
+
+theorem sum_map_le {β : Type} (xs : List β) (f g : β → Nat) (h : ∀ x ∈ xs, f x ≤ g x) :
+    (xs.map f).sum ≤ (xs.map g).sum := by
+  induction xs with
+  | nil => simp
+  | cons a r ih =>
+    simp only [List.map_cons, List.sum_cons]
+    have h1 := h a (by simp)
+    have h2 := ih (fun x hx => h x (by simp [hx]))
+    omega
+
+theorem sum_map_lt {β : Type} (xs : List β) (f g : β → Nat) (h : ∀ x ∈ xs, f x ≤ g x)
+    (x0 : β) (hx0 : x0 ∈ xs) (hlt : f x0 < g x0) : (xs.map f).sum < (xs.map g).sum := by
+  induction xs with
+  | nil => cases hx0
+  | cons a r ih =>
+    simp only [List.map_cons, List.sum_cons]
+    have h1 := h a (by simp)
+    have h2 := sum_map_le r f g (fun x hx => h x (by simp [hx]))
+    rcases List.mem_cons.mp hx0 with rfl | hr
+    · omega
+    · have := ih (fun x hx => h x (by simp [hx])) hr
+      omega
+
+theorem sum_map_const_le {β : Type} (xs : List β) (f : β → Nat) (b : Nat) (h : ∀ x ∈ xs, f x ≤ b) :
+    (xs.map f).sum ≤ xs.length * b := by
+  induction xs with
+  | nil => simp
+  | cons a r ih =>
+    simp only [List.map_cons, List.sum_cons, List.length_cons]
+    have h1 := h a (by simp)
+    have h2 := ih (fun x hx => h x (by simp [hx]))
+    rw [Nat.succ_mul]; omega
+
+/-- weight of a target: its recorded depth, or `B` while unreached -/
+def wt (B : Nat) (depth : List (α × Nat)) (t : α) : Nat :=
+  match get depth t with
+  | some d => d
+  | none => B
+
+def phi (B : Nat) (depth : List (α × Nat)) (ls : List (Link α F)) : Nat :=
+  (ls.map fun l => wt B depth l.to).sum
+
+/-- number of links (with multiplicity) whose target is reached -/
+def reachedCnt (depth : List (α × Nat)) (ls : List (Link α F)) : Nat :=
+  (ls.map fun l => if (get depth l.to).isSome then 1 else 0).sum
+
+theorem reachedCnt_le (depth : List (α × Nat)) (ls : List (Link α F)) :
+    reachedCnt depth ls ≤ ls.length := by
+  have := sum_map_const_le ls (fun l => if (get depth l.to).isSome then 1 else 0) 1
+    (fun l _ => by split <;> omega)
+  simpa [reachedCnt] using this
+
+/-- every recorded depth is bounded by the number of links with a reached target -/
+def Bnd (ls : List (Link α F)) (s : DState α F) : Prop :=
+  ∀ c d, get s.depth c = some d → d ≤ reachedCnt s.depth ls
+
+theorem bnd_init (own : List α) (ls : List (Link α F)) : Bnd ls (initState own : DState α F) := by
+  intro c d h
+  simp only [initState, get_init] at h
+  split at h
+  · injection h with h; omega
+  · cases h
+
+theorem step_facts {ls : List (Link α F)} {s : DState α F} (hB : Bnd ls s)
+    {l : Link α F} {c : Nat} (h : findStep s.depth ls = some (l, c)) :
+    Bnd ls (s.record l c) ∧
+      phi (ls.length + 1) (s.record l c).depth ls < phi (ls.length + 1) s.depth ls := by
+  obtain ⟨hl, hcost, hstep⟩ := findStep_some h
+  obtain ⟨m, hm, hcm⟩ := cost?_some hcost
+  -- m ≤ reachedCnt
+  have hmle : m ≤ reachedCnt s.depth ls := by
+    rcases maxDepth?_attained hm with h0 | ⟨f, _, hfd⟩
+    · omega
+    · exact hB f m hfd
+  -- the count does not decrease, and increases when the target is new
+  have hmono : ∀ x : Link α F, (if (get s.depth x.to).isSome then 1 else 0) ≤
+      (if (get (s.record l c).depth x.to).isSome then 1 else 0) := by
+    intro x
+    simp only [DState.record, get_cons]
+    by_cases hx : x.to = l.to
+    · simp [hx]; split <;> omega
+    · simp [hx]
+  have hcnt : reachedCnt s.depth ls ≤ reachedCnt (s.record l c).depth ls :=
+    sum_map_le ls _ _ (fun x _ => hmono x)
+  have hnew : get s.depth l.to = none → reachedCnt s.depth ls < reachedCnt (s.record l c).depth ls := by
+    intro hn
+    refine sum_map_lt ls _ _ (fun x _ => hmono x) l hl ?_
+    simp [DState.record, get_cons, hn]
+  have hcle : c ≤ reachedCnt (s.record l c).depth ls := by
+    rcases hstep with hn | ⟨d0, hd0, hlt⟩
+    · have := hnew hn; omega
+    · have := hB _ _ hd0; omega
+  refine ⟨?_, ?_⟩
+  · intro x d hx
+    simp only [DState.record, get_cons] at hx
+    split at hx
+    · injection hx with hx; omega
+    · have := hB x d hx; omega
+  · have hL := reachedCnt_le (s.record l c).depth ls
+    have hle : ∀ x ∈ ls, wt (ls.length + 1) (s.record l c).depth x.to ≤ wt (ls.length + 1) s.depth x.to := by
+      intro x _
+      simp only [wt, DState.record, get_cons]
+      by_cases hx : x.to = l.to
+      · simp only [hx, if_true]
+        rcases hstep with hn | ⟨d0, hd0, hlt⟩
+        · rw [hn]; simp only; omega
+        · rw [hd0]; simp only; omega
+      · simp [hx]
+    refine sum_map_lt ls _ _ hle l hl ?_
+    simp only [wt, DState.record, get_cons, if_true]
+    rcases hstep with hn | ⟨d0, hd0, hlt⟩
+    · rw [hn]; simp only; omega
+    · rw [hd0]; simp only; omega
+
+theorem bnd_fuel {ls : List (Link α F)} (n : Nat) :
+    ∀ s : DState α F, Bnd ls s → Bnd ls (discoverFuel n ls s) := by
+  induction n with
+  | zero => intro s h; exact h
+  | succ n ih =>
+    intro s hB
+    unfold discoverFuel
+    split
+    · exact hB
+    · rename_i l c hf
+      exact ih _ (step_facts hB hf).1
+
+theorem stable_fuel {ls : List (Link α F)} (n : Nat) :
+    ∀ s : DState α F, Bnd ls s → phi (ls.length + 1) s.depth ls < n →
+      findStep (discoverFuel n ls s).depth ls = none := by
+  induction n with
+  | zero => intro s _ h; omega
+  | succ n ih =>
+    intro s hB hphi
+    unfold discoverFuel
+    split
+    · assumption
+    · rename_i l c hf
+      have := step_facts hB hf
+      exact ih _ this.1 (by omega)
+
+theorem phi_init_lt (own : List α) (ls : List (Link α F)) :
+    phi (ls.length + 1) (initState own : DState α F).depth ls < fuelBound ls := by
+  have := sum_map_const_le ls (fun l => wt (ls.length + 1) (initState own : DState α F).depth l.to)
+    (ls.length + 1) (by
+      intro l _
+      simp only [wt, initState, get_init]
+      split
+      · rename_i d hd
+        split at hd
+        · injection hd with hd; omega
+        · cases hd
+      · omega)
+  simp only [phi, fuelBound]
+  omega
+
+/-- The loop stops at a fixpoint within the fuel bound. -/
+theorem discover_stable (own : List α) (ls : List (Link α F)) :
+    findStep (discoverLinks own ls).depth ls = none :=
+  stable_fuel _ _ (bnd_init own ls) (phi_init_lt own ls)
+
+theorem discover_inv (own : List α) (ls : List (Link α F)) : Inv own ls (discoverLinks own ls) :=
+  inv_fuel _ _ (inv_init own ls)
+
+theorem discover_depth_le_length (own : List α) (ls : List (Link α F)) (c : α) (d : Nat)
+    (h : get (discoverLinks own ls).depth c = some d) : d ≤ ls.length :=
+  Nat.le_trans (bnd_fuel _ _ (bnd_init own ls) c d h) (reachedCnt_le _ _)
+
 end
 end GlueVerif.Lemmas.C03
